@@ -434,7 +434,8 @@ func drawDeps(t *rapid.T, npk int, selfIdx int, depth int) nDeps {
 		// alias-cycle non-termination, C04)
 		if rapid.IntRange(0, 4).Draw(t, "alias") == 0 && selfIdx >= 0 && selfIdx < npk-1 {
 			ti = rapid.IntRange(selfIdx+1, npk-1).Draw(t, "aliastarget")
-			x = nDep{Name: rapid.SampledFrom([]string{"al1", "@al/two", "al3"}).Draw(t, "aliasname"), Req: "npm:" + pkgNames[ti] + "@" + req}
+			// (sometimes the alias is the package's own name: "lodash": "npm:lodash@^4")
+			x = nDep{Name: rapid.SampledFrom([]string{"al1", "@al/two", "al3", pkgNames[ti]}).Draw(t, "aliasname"), Req: "npm:" + pkgNames[ti] + "@" + req}
 		}
 		if used[x.Name] {
 			continue
